@@ -2038,6 +2038,17 @@ class Transport(threading.Thread, ClosingContextManager):
         key = self._key_info[self.host_key_type](Message(host_key))
         if key is None:
             raise SSHException("Unknown host key type")
+        # The signature has to be of the algorithm that was negotiated, not of
+        # whichever one its own header names (key classes such as RSAKey pick
+        # the hash from that header; ECDSAKey covers several curves). The cert
+        # suffix describes the key format only, signatures never carry it.
+        expected = self.host_key_type.replace("-cert-v01@openssh.com", "")
+        if Message(sig).get_string() != expected.encode("utf-8"):
+            raise SSHException(
+                "Host key signature is not of the negotiated type ({})".format(
+                    expected
+                )
+            )
         if not key.verify_ssh_sig(self.H, Message(sig)):
             raise SSHException(
                 "Signature verification ({}) failed.".format(
